@@ -87,20 +87,20 @@ CHECKS["C17"] = dict(level="model_checking", design="5/C17",
 
 # families added after the first version of the table (the measured numbers are in evidence/<id>.json)
 EXTRA = {
- "C01": " Later additions: composition templates (every ordered triple of 37 one-hole constructs around 10 leaves, top level and function-local), functions defined in nested top-level scopes, and the size ladders of ladders.rs (jump distances, entry offsets, local/global/constant counts and block nesting around every power of two and across the compiler's size limit), each rung compared with the reference interpreter; scope events x kinds of use (every sequence of 2 / 3 events from a menu of 73 after a declaration, at top level, in a block and in a function body).",
+ "C01": " Later additions: composition templates (every ordered triple of 37 one-hole constructs around 10 leaves, top level and function-local), functions defined in nested top-level scopes, and the size ladders of ladders.rs (jump distances, entry offsets, local/global/constant counts and block nesting around every power of two and across the compiler's size limit), each rung compared with the reference interpreter; scope events x kinds of use (every sequence of 2 / 3 events from a menu of 73 after a declaration, at top level, in a block and in a function body). Rounds 15-20: scope events x kinds of use; descriptor literals; an exit behind N pending operands (N to 1 025 / 4 097).",
  "C02": " Later additions: composition templates and all size-ladder programs (static exploration + conformance replay on code of up to 64 KiB). Heights are explored exactly; an instruction reached with more than 64 different heights is reported as lying on a stack-growing cycle.",
- "C05": " Later additions: calls with as many arguments as parameters across the 255-argument limit; 30 refused constructs quoting a long text with a wide character at every position. Also runs the repository's own command-line program, built from /repo in the plain dev profile (no optimisation) and in the release profile, one process per case with an 8 MiB stack, on long-run ladders (runs of white space / comment lines / long tokens at 2^10..2^18 (2^21), counted constructs, nesting around and beyond the parser's limit, run-time depth): no process is killed, both builds print the same, closed-form results where known.",
+ "C05": " Later additions: calls with as many arguments as parameters across the 255-argument limit; 30 refused constructs quoting a long text with a wide character at every position. Also runs the repository's own command-line program, built from /repo in the plain dev profile (no optimisation) and in the release profile, one process per case with an 8 MiB stack, on long-run ladders (runs of white space / comment lines / long tokens at 2^10..2^18 (2^21), counted constructs, nesting around and beyond the parser's limit, run-time depth): no process is killed, both builds print the same, closed-form results where known. Rounds 17-20: endless recursion of nine function shapes, file shapes (beginnings x bodies x endings, files that are not UTF-8), the prompt's liveness on every session of C17, on non-UTF-8 lines and on an unreadable input.",
  "C07": " Later additions: block-ended expressions (als, zolang, functie) without parentheses as left/right operand of every operator and as callee in 16 statement and expression contexts.",
- "C09": " Later additions: functions defined in top-level blocks / branches / loop bodies nested to depth 3 with every subset of levels declaring the same name; slot-number ladders (many globals, nested block locals, each read back); scope events x kinds of use (nine kinds of use directly / inside a block, branch or one-shot loop that does or does not declare the name again / inside a function with that parameter / after a second declaration; every pair of events, three contexts).",
+ "C09": " Later additions: functions defined in top-level blocks / branches / loop bodies nested to depth 3 with every subset of levels declaring the same name; slot-number ladders (many globals, nested block locals, each read back); scope events x kinds of use (nine kinds of use directly / inside a block, branch or one-shot loop that does or does not declare the name again / inside a function with that parameter / after a second declaration; every pair of events, three contexts). Rounds 18-20: names declared by named function literals in operand position, parameterless functions using an outer name, a same-named global next to a local; 27 pairs of confusable names x 8 programs.",
  "C10": " Later additions: literal-pristine family (literals through 12 value-preserving contexts, modified in place, re-evaluated); constant-pool ladders (ints, floats, strings; indices across 255 and 65 535; the same literals again after the pool has grown; at top level and inside a function).",
  "C11": " Later additions: condition-driven loops around every body of <= 2 statements, literal-`ja` loops, depth-bounded templates, and jump-distance ladders up to the 64 KiB code limit (differential + static).",
- "C12": " Later additions: arity ladder (0..12 and around every power of two up to 255 arguments, x 0/1/3 locals, every parameter read back), empty bodies, locals in sibling blocks, frame-size and entry-offset ladders.",
- "C03": " Later additions: allocation-count ladders (N objects created without a collection in between, N around every power of two, garbage and live, followed by a call / an error) under the shadow heap.",
- "C04": " Later additions: allocation-count ladders as in C03 with the ledger audit, cut short around every power-of-two instruction count.",
- "C06": " Later additions: strings of 3..33 characters differing at every pair of positions in opposite directions, at one position, by a wide character, or by being a prefix.",
- "C13": " Later additions: length ladders (strings and arrays around every power of two up to 257, one wide character at every position, every index read from both ends, writes around it); literal-pristine family; self-consistency where the model is silent (U8): after replacing a character by zero or several characters the printed text, lengte and per-character reads from both ends must describe the same string.",
+ "C12": " Later additions: arity ladder (0..12 and around every power of two up to 255 arguments, x 0/1/3 locals, every parameter read back), empty bodies, locals in sibling blocks, frame-size and entry-offset ladders. Rounds 16-18: descriptor literals; frames of 7/10/16/40 slots at the recursion limit; one name denoting two functions of different arity (16 arity pairs x 6 mechanisms).",
+ "C03": " Later additions: allocation-count ladders (N objects created without a collection in between, N around every power of two, garbage and live, followed by a call / an error) under the shadow heap. Rounds 16-19: a 2^21+1 rung; integer decoys (numbers whose bits are the address of a live object) next to every collector operation; the program's result survives trailing declarations with 0..4 097 live objects; callers hold fresh values on the stack while a callee allocates n objects.",
+ "C04": " Later additions: allocation-count ladders as in C03 with the ledger audit, cut short around every power-of-two instruction count. Rounds 16-19: as C03 (decoys, result-survives and callers-hold programs), each with its abort points.",
+ "C06": " Later additions: strings of 3..33 characters differing at every pair of positions in opposite directions, at one position, by a wide character, or by being a prefix. Rounds 17-19: the same object on both sides of every operator (NaN); every operator in its fused forms on the variable in slot S (S to 300 and around powers of two to 4 096).",
+ "C13": " Later additions: length ladders (strings and arrays around every power of two up to 257, one wide character at every position, every index read from both ends, writes around it); literal-pristine family; self-consistency where the model is silent (U8): after replacing a character by zero or several characters the printed text, lengte and per-character reads from both ends must describe the same string. Rounds 16-20: strings looked at before an in-place edit (every length to 70 and around 100/128/256/1000); an element taken out of a text is a text of its own.",
  "C17": " Later additions: deviation-bounded long sessions: four ordinary ten-line sessions, every crash point of every line with the rest of the session as continuation, and every insertion of one or two of 40 deviation lines at every position. Also drives the REAL interactive prompt: the repository's command-line program (dev and release build) fed sessions on standard input, its output compared with the session model prompt by prompt (2 200 sessions quick), it must survive every failing line and end at end of input.",
- "C16": " Later additions: the batch has 40 programs (values equal under == but not identical, e.g. 0.0 / -0.0, 1 / 1.0); one 6 000-program history; a symbol-table scan for writable statics; violations carry the worker's evaluation log so that replay reproduces; recursion to within two levels of the deepest frame for 9 frame sizes in the profile table. Also runs the repository's own command-line program, built from /repo in the plain dev profile (no optimisation) and in the release profile, one process per case with an 8 MiB stack, on long-run ladders (runs of white space / comment lines / long tokens at 2^10..2^18 (2^21), counted constructs, nesting around and beyond the parser's limit, run-time depth): no process is killed, both builds print the same, closed-form results where known.",
+ "C16": " Later additions: the batch has 40 programs (values equal under == but not identical, e.g. 0.0 / -0.0, 1 / 1.0); one 6 000-program history; a symbol-table scan for writable statics; violations carry the worker's evaluation log so that replay reproduces; recursion to within two levels of the deepest frame for 9 frame sizes in the profile table. Also runs the repository's own command-line program, built from /repo in the plain dev profile (no optimisation) and in the release profile, one process per case with an 8 MiB stack, on long-run ladders (runs of white space / comment lines / long tokens at 2^10..2^18 (2^21), counted constructs, nesting around and beyond the parser's limit, run-time depth): no process is killed, both builds print the same, closed-form results where known. Rounds 18-20: file shapes; n function returns that each free an object (n to 2^16+1 / 2^17+1).",
 }
 for k, v in EXTRA.items():
     CHECKS[k]["text"] += v
